@@ -6,7 +6,7 @@ use crate::gen;
 use crate::model::ops::MOp::{self, *};
 use crate::model::vm::{bytes_to_words, words_to_bytes, MSolution};
 use crate::real::{exec_agrees_with_lockstep, lockstep, run_exec_logged, ExecCase, LockCfg};
-use crate::{ensure, viol};
+use crate::ensure;
 use proptest::prelude::*;
 use serde::{Deserialize, Serialize};
 use std::sync::Arc;
